@@ -8,6 +8,7 @@ import (
 	gotoken "go/token"
 	"strconv"
 	"strings"
+	"sync"
 
 	"verif/harness/core"
 	"verif/harness/gen"
@@ -196,8 +197,12 @@ func (c *c16cmp) tokenLit(e goast.Expr, t *token.Token, elided bool, kind, slot 
 	}
 	if e, ok := m["ID"]; ok {
 		got := strings.TrimPrefix(exprString(e), "token.")
-		if got != t.ID.String() {
-			c.fail(kind, slot+".ID", "wrong-content", fmt.Sprintf("dump has ID %s, token has %s", got, t.ID.String()))
+		// the dumped identifier is evaluated against the constant declarations of pkg/token/token.go
+		// (not through ID.String(), which is the very table the dumper prints from)
+		if v, known := tokenIDValue(got); !known {
+			c.fail(kind, slot+".ID", "wrong-content", fmt.Sprintf("dump has ID %s, which is not a constant of package token (the token has id %d)", got, int(t.ID)))
+		} else if v != int(t.ID) {
+			c.fail(kind, slot+".ID", "wrong-content", fmt.Sprintf("dump has ID %s (= %d), the token has id %d (%s)", got, v, int(t.ID), tokenIDName(int(t.ID))))
 		}
 		delete(m, "ID")
 	} else if t.ID > 0 {
@@ -436,4 +441,67 @@ func trunc(s string, n int) string {
 		return s[:n] + "…"
 	}
 	return s
+}
+
+var (
+	tokenConstOnce sync.Once
+	tokenConsts    map[string]int
+	tokenNames     map[int]string
+)
+
+// loadTokenConsts evaluates the const block of pkg/token/token.go (iota arithmetic of the form
+// "X ID = iota + N" followed by bare names) with go/parser.
+func loadTokenConsts() {
+	tokenConstOnce.Do(func() {
+		tokenConsts, tokenNames = map[string]int{}, map[int]string{}
+		fset := gotoken.NewFileSet()
+		f, err := goparser.ParseFile(fset, "/repo/pkg/token/token.go", nil, 0)
+		if err != nil {
+			core.Fail("C16: cannot read pkg/token/token.go: %v", err)
+		}
+		for _, d := range f.Decls {
+			gd, ok := d.(*goast.GenDecl)
+			if !ok || gd.Tok != gotoken.CONST {
+				continue
+			}
+			base := 0
+			for i, sp := range gd.Specs {
+				vs := sp.(*goast.ValueSpec)
+				if len(vs.Values) == 1 {
+					// iota + N
+					if be, ok := vs.Values[0].(*goast.BinaryExpr); ok {
+						if lit, ok := be.Y.(*goast.BasicLit); ok {
+							n, _ := strconv.Atoi(lit.Value)
+							base = n - i
+						}
+					}
+				}
+				for _, nm := range vs.Names {
+					tokenConsts[nm.Name] = base + i
+					tokenNames[base+i] = nm.Name
+				}
+			}
+		}
+		if len(tokenConsts) < 100 {
+			core.Fail("C16: only %d token constants found in pkg/token/token.go", len(tokenConsts))
+		}
+	})
+}
+
+func tokenIDValue(s string) (int, bool) {
+	loadTokenConsts()
+	if strings.HasPrefix(s, "ID(") && strings.HasSuffix(s, ")") {
+		n, err := strconv.Atoi(s[3 : len(s)-1])
+		return n, err == nil
+	}
+	v, ok := tokenConsts[s]
+	return v, ok
+}
+
+func tokenIDName(v int) string {
+	loadTokenConsts()
+	if n, ok := tokenNames[v]; ok {
+		return n
+	}
+	return fmt.Sprintf("ID(%d)", v)
 }
